@@ -13,7 +13,7 @@
 //!   restart a node's listener, add a node to the topology.
 use crate::mocknode::*;
 use std::net::{Ipv4Addr, SocketAddr};
-use std::sync::atomic::{AtomicU64, Ordering};
+use std::sync::atomic::{AtomicBool, AtomicU64, Ordering};
 use std::sync::{Arc, Mutex};
 use std::time::Duration;
 use tokio::io::{AsyncReadExt, AsyncWriteExt};
@@ -102,6 +102,44 @@ pub fn write_meta(b: &mut Vec<u8>, specs: &Specs, with_cols: bool, paging_state:
 
 pub type Cell = Option<Vec<u8>>;
 
+/// RESULT/Rows body with the METADATA_CHANGED flag (0x0008) and a new result-metadata id when `new_metadata_id` is
+/// `Some` (only legal on a connection with the metadata-id extension; the column specs must then be sent too).
+pub fn rows_body_ext(specs: &Specs, with_cols: bool, paging_state: Option<&[u8]>, new_metadata_id: Option<&[u8]>, rows: &[Vec<Cell>]) -> Vec<u8> {
+    let mut flags = if with_cols { 0x0001 } else { 0x0004 };
+    if paging_state.is_some() {
+        flags |= 0x0002;
+    }
+    if new_metadata_id.is_some() {
+        flags |= 0x0008;
+    }
+    let mut b = Vec::new();
+    w_int(&mut b, 2);
+    w_int(&mut b, flags);
+    w_int(&mut b, specs.cols.len() as i32);
+    if let Some(ps) = paging_state {
+        w_bytes(&mut b, Some(ps));
+    }
+    if let Some(id) = new_metadata_id {
+        w_short_bytes(&mut b, id);
+    }
+    if with_cols {
+        w_string(&mut b, &specs.ks);
+        w_string(&mut b, &specs.table);
+        for (n, t) in &specs.cols {
+            w_string(&mut b, n);
+            t.write(&mut b);
+        }
+    }
+    w_int(&mut b, rows.len() as i32);
+    for r in rows {
+        debug_assert_eq!(r.len(), specs.cols.len());
+        for c in r {
+            w_bytes(&mut b, c.as_deref());
+        }
+    }
+    b
+}
+
 /// RESULT/Rows body.
 pub fn rows_body(specs: &Specs, with_cols: bool, paging_state: Option<&[u8]>, rows: &[Vec<Cell>]) -> Vec<u8> {
     let mut b = Vec::new();
@@ -119,9 +157,18 @@ pub fn rows_body(specs: &Specs, with_cols: bool, paging_state: Option<&[u8]>, ro
 
 /// RESULT/Prepared body (no metadata-id extension).
 pub fn prepared_body(id: &[u8], bind: &Specs, pk_indexes: &[u16], result: Option<&Specs>) -> Vec<u8> {
+    prepared_body_ext(id, None, bind, pk_indexes, result)
+}
+
+/// RESULT/Prepared body; `result_metadata_id`: `Some` exactly on connections that negotiated SCYLLA_USE_METADATA_ID
+/// (`Req::metadata_ext`) - the id follows the statement id.
+pub fn prepared_body_ext(id: &[u8], result_metadata_id: Option<&[u8]>, bind: &Specs, pk_indexes: &[u16], result: Option<&Specs>) -> Vec<u8> {
     let mut b = Vec::new();
     w_int(&mut b, 4);
     w_short_bytes(&mut b, id);
+    if let Some(mid) = result_metadata_id {
+        w_short_bytes(&mut b, mid);
+    }
     w_int(&mut b, 0x0001);
     w_int(&mut b, bind.cols.len() as i32);
     w_int(&mut b, pk_indexes.len() as i32);
@@ -214,6 +261,13 @@ pub struct KeyspaceSpec {
     pub initial_tablets: Option<i32>,
 }
 
+/// (C12 `e2e route lwtmark=1`) When set, every node's SUPPORTED also advertises ScyllaDB's LWT-mark extension
+/// `SCYLLA_LWT_ADD_METADATA_MARK` = [`LWT_OPTIMIZATION_META_BIT_MASK=<LWT_MARK>`]: a PREPARED response whose metadata flags
+/// carry `LWT_MARK` then tells the driver that the statement is an LWT. Process-wide (cases run one at a time); the
+/// case that sets it resets it.
+pub static ADVERTISE_LWT_MARK: AtomicBool = AtomicBool::new(false);
+pub const LWT_MARK: u32 = 0x8000_0000;
+
 #[derive(Clone, Debug, Default)]
 pub struct Topology {
     pub nodes: Vec<NodeSpec>,
@@ -273,6 +327,10 @@ pub struct Req {
     pub internal: bool,
     /// wall clock at arrival
     pub at: std::time::Instant,
+    /// this connection negotiated SCYLLA_USE_METADATA_ID in STARTUP (only possible after
+    /// `MockCluster::enable_metadata_id_ext`): its EXECUTE bodies carry a result-metadata id, which is then in
+    /// `Parsed::Execute::result_metadata_id` (`None` on connections without the extension)
+    pub metadata_ext: bool,
 }
 
 #[derive(Clone, Debug)]
@@ -331,6 +389,8 @@ struct State {
     auto_use: bool,
     /// a muted node reads and records frames but answers nothing (not even keep-alives)
     muted: Vec<bool>,
+    /// opt-in (`MockCluster::enable_metadata_id_ext`): SUPPORTED advertises SCYLLA_USE_METADATA_ID
+    metadata_id_ext: bool,
     /// print every frame to stderr (developer aid)
     trace: bool,
     /// C19: while on, a `system.local` rows query (one per full metadata fetch) is held until a verdict is released
@@ -428,6 +488,7 @@ impl MockCluster {
                 ips,
                 auto_use: true,
                 muted: vec![false; n],
+                metadata_id_ext: false,
                 trace: std::env::var_os("VERIF_E2E_TRACE").is_some(),
                 meta_gate: false,
                 meta_held: 0,
@@ -461,6 +522,15 @@ impl MockCluster {
 
     pub fn set_handler(&self, h: ClusterHandler) {
         *self.shared.handler.lock().unwrap() = h;
+    }
+
+    /// OPT-IN, call it right after `start` (before a session connects): every node advertises SCYLLA_USE_METADATA_ID in
+    /// SUPPORTED; a connection whose STARTUP asks for it has `Req::metadata_ext == true`, its EXECUTE bodies are parsed
+    /// with the result-metadata id field (`Parsed::Execute::result_metadata_id`), and PREPARED bodies sent on it must
+    /// carry a result-metadata id (`prepared_body_ext`; the nodes do so themselves for the system tables). See
+    /// [`MetaRegistry`] for the scripted "current result metadata" of user statements.
+    pub fn enable_metadata_id_ext(&self) {
+        self.shared.st.lock().unwrap().metadata_id_ext = true;
     }
 
     /// `false`: `USE x` statements go to the handler (which then answers and emits `Act::AckKeyspace`).
@@ -792,8 +862,8 @@ async fn serve_conn(
     mut sock: tokio::net::TcpStream,
     kill: Arc<Notify>,
 ) {
-    // statements of the system tables prepared on this node: id -> text (ids are a digest of the text, so they are the
-    // same on every node and survive reconnects)
+    // SCYLLA_USE_METADATA_ID negotiated on this connection (opt-in, see `MockCluster::enable_metadata_id_ext`)
+    let mut ext_on = false;
     loop {
         let fr = tokio::select! {
             f = read_frame(&mut sock) => f,
@@ -802,11 +872,15 @@ async fn serve_conn(
         let Some((hdr, body)) = fr else { return };
         let stream = i16::from_be_bytes([hdr[2], hdr[3]]);
         let opcode = hdr[4];
-        let parsed = parse_request(opcode, &body, false);
+        let parsed = parse_request(opcode, &body, ext_on);
+        if let Parsed::Startup(opts) = &parsed {
+            // negotiated only if this cluster advertises it (opt-in) and the driver asked for it
+            ext_on = shared.st.lock().unwrap().metadata_id_ext && opts.iter().any(|(k, _)| k == "SCYLLA_USE_METADATA_ID");
+        }
         // classify + record under the lock
         let (req, internal_actions) = {
             let mut st = shared.st.lock().unwrap();
-            let mut internal_actions = internal_response(&mut st, node, conn, shard, port, &parsed);
+            let mut internal_actions = internal_response(&mut st, node, conn, shard, port, &parsed, ext_on);
             let internal = internal_actions.is_some();
             if st.muted[node] {
                 internal_actions = Some(vec![]);
@@ -830,6 +904,7 @@ async fn serve_conn(
                 control: ci.control,
                 internal,
                 at: std::time::Instant::now(),
+                metadata_ext: ext_on,
             };
             if st.trace {
                 eprintln!("[mock n{} c{} s{:?} #{}] {:?} ks={:?}", node, conn, req.shard, req.stream, req.parsed, req.keyspace);
@@ -967,6 +1042,7 @@ fn internal_response(
     shard: Option<(u16, u16, u8)>,
     port: u16,
     parsed: &Parsed,
+    ext_on: bool,
 ) -> Option<Vec<Act>> {
     match parsed {
         Parsed::Options => {
@@ -980,6 +1056,20 @@ fn internal_response(
                 w_short(&mut body, 1);
                 w_string(&mut body, "");
             }
+            if ADVERTISE_LWT_MARK.load(Ordering::SeqCst) {
+                let n = u16::from_be_bytes([body[0], body[1]]) + 1;
+                body[..2].copy_from_slice(&n.to_be_bytes());
+                w_string(&mut body, "SCYLLA_LWT_ADD_METADATA_MARK");
+                w_short(&mut body, 1);
+                w_string(&mut body, &format!("LWT_OPTIMIZATION_META_BIT_MASK={}", LWT_MARK));
+            }
+            if st.metadata_id_ext {
+                let n = u16::from_be_bytes([body[0], body[1]]) + 1;
+                body[..2].copy_from_slice(&n.to_be_bytes());
+                w_string(&mut body, "SCYLLA_USE_METADATA_ID");
+                w_short(&mut body, 1);
+                w_string(&mut body, "");
+            }
             Some(vec![Act::Respond(RESP_SUPPORTED, body)])
         }
         Parsed::Startup(_) => Some(vec![Act::Respond(RESP_READY, vec![])]),
@@ -988,7 +1078,9 @@ fn internal_response(
             let (ti, ver) = classify(text)?;
             let (specs, _) = system_rows(st, node, ti, ver)?;
             let bind = Specs { ks: specs.ks.clone(), table: specs.table.clone(), cols: vec![] };
-            Some(vec![Act::Respond(RESP_RESULT, prepared_body(&sys_id(text)?, &bind, &[], Some(&specs)))])
+            // with the extension negotiated a PREPARED body carries a result-metadata id (fixed for the system tables)
+            let mid = ext_on.then_some(&b"sysmeta"[..]);
+            Some(vec![Act::Respond(RESP_RESULT, prepared_body_ext(&sys_id(text)?, mid, &bind, &[], Some(&specs)))])
         }
         Parsed::Query { text, params } if system_statement(text) => {
             let (ti, ver) = classify(text)?;
@@ -1176,6 +1268,54 @@ fn table_partitioner(ks: &str, table: &str) -> Option<String> {
 // ---------------------------------------------------------------------------------------------------------------
 // small helpers for handlers
 // ---------------------------------------------------------------------------------------------------------------
+
+/// Scripted "current result metadata" of prepared statements, shared between the test and its handler (clone it into the
+/// handler closure): statement id -> (result-metadata id, result column specs). `set` again = an ALTER TABLE event.
+/// The answer helpers implement the server side of the SCYLLA_USE_METADATA_ID extension (the semantics of the C14
+/// `hist` server, harness/src/c14.rs):
+///  * PREPARED carries the current metadata id (on extension connections) and the current column specs;
+///  * an EXECUTE on an extension connection presenting ANOTHER id than the current one is answered with
+///    Rows + METADATA_CHANGED + the current id + the current column specs;
+///  * otherwise an EXECUTE with skip_metadata gets NO_METADATA rows, one without it gets the column specs.
+#[derive(Clone, Default)]
+pub struct MetaRegistry(Arc<Mutex<std::collections::HashMap<Vec<u8>, (Vec<u8>, Specs)>>>);
+
+impl MetaRegistry {
+    pub fn new() -> MetaRegistry {
+        MetaRegistry::default()
+    }
+
+    /// Sets / changes (ALTER) the current result metadata of a statement.
+    pub fn set(&self, stmt_id: &[u8], metadata_id: &[u8], specs: Specs) {
+        self.0.lock().unwrap().insert(stmt_id.to_vec(), (metadata_id.to_vec(), specs));
+    }
+
+    pub fn get(&self, stmt_id: &[u8]) -> Option<(Vec<u8>, Specs)> {
+        self.0.lock().unwrap().get(stmt_id).cloned()
+    }
+
+    /// RESULT/Prepared for `stmt_id` under its current metadata (`None`: the statement is not registered).
+    pub fn answer_prepare(&self, req: &Req, stmt_id: &[u8], bind: &Specs, pk_indexes: &[u16]) -> Option<Act> {
+        let (mid, specs) = self.get(stmt_id)?;
+        let mid = req.metadata_ext.then_some(&mid[..]);
+        Some(Act::Respond(RESP_RESULT, prepared_body_ext(stmt_id, mid, bind, pk_indexes, Some(&specs))))
+    }
+
+    /// RESULT/Rows for an EXECUTE frame (`None`: not an EXECUTE of a registered statement). `rows(specs)` builds the
+    /// rows under the CURRENT column specs.
+    pub fn answer_execute(&self, req: &Req, paging_state: Option<&[u8]>, rows: impl FnOnce(&Specs) -> Vec<Vec<Cell>>) -> Option<Act> {
+        let Parsed::Execute { id, result_metadata_id, params } = &req.parsed else { return None };
+        let (cur, specs) = self.get(id)?;
+        let rows = rows(&specs);
+        let stale = req.metadata_ext && result_metadata_id.as_deref() != Some(&cur[..]);
+        let body = if stale {
+            rows_body_ext(&specs, true, paging_state, Some(&cur), &rows)
+        } else {
+            rows_body_ext(&specs, !params.skip_metadata, paging_state, None, &rows)
+        };
+        Some(Act::Respond(RESP_RESULT, body))
+    }
+}
 
 /// Prefixes a response body with a custom payload (bytes map); send it with `Act::RespondFlags(0x04, ..)`.
 pub fn with_custom_payload(entries: &[(&str, Vec<u8>)], body: &[u8]) -> Vec<u8> {
